@@ -181,6 +181,42 @@ fn object_positions(c: &mut Ctx, n_mix: usize) -> Vec<Pos> {
     ps
 }
 
+/// Step sequences for the `via` prefix together with the board they lead to (computed on a fresh board, the
+/// make-and-take-back steps left out — they must not matter): an un-made special move; an un-made special move and then
+/// another move; a special move and a reply. For cases whose arguments (a move, a move text) must fit the FINAL position.
+fn object_followups(c: &mut Ctx, p: &Pos, k: usize) -> Vec<(String, owlchess::Board)> {
+    let sm = semis(&p.board);
+    let mut special: Vec<Move> = sm.iter().copied().filter(|m| posgen::is_interesting(&p.board, m)).collect();
+    special.sort_by_key(|m| (m.kind() as u8) < 6);
+    let legal = true_legal_moves(&p.board);
+    let mut out: Vec<(String, owlchess::Board)> = Vec::new();
+    for u in special.iter().take(k) {
+        out.push((format!("u{}", mv_fmt(u)), p.board.clone()));
+        let mut follow: Vec<Move> = legal.iter().copied().filter(|m| m.src() == u.src() && m != u).collect();
+        c.rng.shuffle(&mut follow);
+        let mut other: Vec<Move> = legal.iter().copied().filter(|m| m.src() != u.src()).collect();
+        c.rng.shuffle(&mut other);
+        for m in follow.iter().take(2).chain(other.iter().take(1)) {
+            if let Some(nb) = posgen::safe_make(&p.board, *m) {
+                out.push((format!("u{},m{}", mv_fmt(u), mv_fmt(m)), nb));
+            }
+        }
+    }
+    for m1 in special.iter().filter(|m| legal.contains(m)).take(k) {
+        if let Some(nb) = posgen::safe_make(&p.board, *m1) {
+            out.push((format!("m{}", mv_fmt(m1)), nb.clone()));
+            let mut replies = true_legal_moves(&nb);
+            c.rng.shuffle(&mut replies);
+            for m2 in replies.iter().take(1) {
+                if let Some(nb2) = posgen::safe_make(&nb, *m2) {
+                    out.push((format!("m{},m{}", mv_fmt(m1), mv_fmt(m2)), nb2));
+                }
+            }
+        }
+    }
+    out
+}
+
 /// `line` (a position case `<op> RAW …` of position `p`) asked again of other board OBJECTS: after making and
 /// un-making a special move (and the null move), and of the board a legal special move produced
 fn object_cases(c: &mut Ctx, p: &Pos, stream: &str, line: &str, k_restored: usize, k_reached: usize) {
@@ -204,6 +240,38 @@ fn object_cases(c: &mut Ctx, p: &Pos, stream: &str, line: &str, k_restored: usiz
         }
         n += 1;
         c.case(&format!("reached {}", stream), &format!("reached {} {}", mv_fmt(m), line));
+    }
+    // two plies: a special move and a reply (a stale right or set of the side that has just moved shows only when it
+    // is that side's turn again)
+    let mut n = 0;
+    for m1 in special.iter().filter(|m| legal.contains(m)).take(k_reached) {
+        if let Some(nb) = posgen::safe_make(&p.board, *m1) {
+            let mut replies = true_legal_moves(&nb);
+            c.rng.shuffle(&mut replies);
+            for m2 in replies.iter().take(2) {
+                if n >= 2 * k_reached {
+                    break;
+                }
+                n += 1;
+                c.case(&format!("via {}", stream), &format!("via m{},m{} {}", mv_fmt(m1), mv_fmt(m2), line));
+            }
+        }
+    }
+    // a special move made and taken back, THEN another move made: what a take-back left wrong in the hidden state of
+    // the mover's men shows when the other side is to move (the same man moving differently first, then any move)
+    let mut n = 0;
+    for u in special.iter().take(k_restored) {
+        let mut follow: Vec<Move> = legal.iter().copied().filter(|m| m.src() == u.src() && m != u).collect();
+        c.rng.shuffle(&mut follow);
+        let mut other: Vec<Move> = legal.iter().copied().filter(|m| m.src() != u.src()).collect();
+        c.rng.shuffle(&mut other);
+        for m in follow.iter().take(2).chain(other.iter().take(1)) {
+            if n >= 2 * k_restored {
+                break;
+            }
+            n += 1;
+            c.case(&format!("via {}", stream), &format!("via u{},m{} {}", mv_fmt(u), mv_fmt(m), line));
+        }
     }
 }
 
@@ -407,6 +475,18 @@ fn c02(c: &mut Ctx) {
             object_cases(c, &p, "makelike ucistr", &format!("makelike {} ucistr {}", raw, str_enc(&m.to_string())), 3, 1);
         }
     }
+    // ... with the moves taken from the position the steps lead to
+    for p in object_positions(c, 20) {
+        c.pos(&p);
+        let raw = p.raw_text();
+        for (steps, fb) in object_followups(c, &p, 3) {
+            let mut ms = semis(&fb);
+            c.rng.shuffle(&mut ms);
+            for m in ms.iter().take(4) {
+                c.case("via makelike move", &format!("via {} makelike {} move {}", steps, raw, mv_fmt(m)));
+            }
+        }
+    }
 }
 
 fn c03_positions(c: &mut Ctx, n: usize) -> Vec<Pos> {
@@ -478,6 +558,24 @@ fn c05(c: &mut Ctx) {
             c.mv_stat(&m);
             c.case("make", &format!("make {} {}", raw, mv_fmt(&m)));
         }
+        // semilegal moves that leave the king attacked (a refused push makes and rolls back exactly these) and the null
+        // move (search code): the stored sets and hash after the apply and after the undo
+        for m in semis(&p.board).iter().filter(|m| m.validate(&p.board).is_err()).take(3) {
+            c.mv_stat(m);
+            c.case("make", &format!("make {} {}", raw, mv_fmt(m)));
+        }
+        c.st.mv_kind(0);
+        c.case("make", &format!("make {} 0.0.0.0", raw));
+    }
+    // apply / undo of the special moves on board objects that an earlier apply / undo has already touched
+    for p in object_positions(c, 40) {
+        c.pos(&p);
+        let raw = p.raw_text();
+        let sm = semis(&p.board);
+        for m in sm.iter().filter(|m| posgen::is_interesting(&p.board, m)).take(4).chain(sm.iter().take(1)) {
+            object_cases(c, &p, "make", &format!("make {} {}", raw, mv_fmt(m)), 4, 1);
+        }
+        object_cases(c, &p, "make", &format!("make {} 0.0.0.0", raw), 4, 1);
     }
     let nc = c.vol(300, 15.0);
     chains(c, nc, Flavor::Hash);
@@ -809,6 +907,21 @@ fn c09(c: &mut Ctx) {
             }
         }
     }
+    // ... with the moves and texts taken from the position the steps lead to
+    for p in object_positions(c, 20) {
+        c.pos(&p);
+        let raw = p.raw_text();
+        for (steps, fb) in object_followups(c, &p, 3) {
+            let mut ms = true_legal_moves(&fb);
+            c.rng.shuffle(&mut ms);
+            for m in ms.iter().take(4) {
+                c.case("via sanof", &format!("via {} sanof {} {}", steps, raw, mv_fmt(m)));
+                if let Some(t) = san_of(&fb, *m) {
+                    c.case("via saninto", &format!("via {} saninto {} {}", steps, raw, str_enc(&t)));
+                }
+            }
+        }
+    }
 }
 
 fn has_special(b: &Board) -> bool {
@@ -923,6 +1036,18 @@ fn c10(c: &mut Ctx) {
         let sm = semis(&p.board);
         for m in sm.iter().take(8) {
             object_cases(c, &p, "uciinto", &format!("uciinto {} {} legal", raw, str_enc(&m.to_string())), 3, 1);
+        }
+    }
+    // ... with the move texts taken from the position the steps lead to
+    for p in object_positions(c, 30) {
+        c.pos(&p);
+        let raw = p.raw_text();
+        for (steps, fb) in object_followups(c, &p, 4) {
+            let mut ms = semis(&fb);
+            c.rng.shuffle(&mut ms);
+            for m in ms.iter().take(6) {
+                c.case("via uciinto", &format!("via {} uciinto {} {} legal", steps, raw, str_enc(&m.to_string())));
+            }
         }
     }
 }
@@ -1188,6 +1313,49 @@ fn c17(c: &mut Ctx) {
     chains(c, n, Flavor::Print);
     // games whose printed check / mate marks hang on ONE generator group of `has_legal_moves`: a checking move into a
     // single-group position (incl. a double step answered only by en passant), then the only kind of reply
+    // en-passant captures (especially by a- and h-pawns) recorded through their SAN text, then printed and replayed:
+    // the readers, the generator and the validator must agree on them
+    let mut eps: Vec<Pos> = posgen::f3_wrap();
+    eps.extend(posgen::f3a(c.thorough));
+    let mut n_edge = 0usize;
+    for p in &eps {
+        // read off the squares, not asked of the library: the victim is the marked pawn, a capturer stands next to it
+        let r = p.board.raw();
+        let v = match r.ep_source {
+            Some(s) => s.index(),
+            None => continue,
+        };
+        let white = r.side == owlchess::Color::White;
+        let own_pawn = if white { posgen::WP } else { posgen::BP };
+        let dst = if white { v - 8 } else { v + 8 };
+        for cf in [(v % 8) as i32 - 1, (v % 8) as i32 + 1] {
+            if !(0..8).contains(&cf) {
+                continue;
+            }
+            let cs = (v / 8) * 8 + cf as usize;
+            if r.cells[cs].index() as u8 != own_pawn {
+                continue;
+            }
+            let edge = cf == 0 || cf == 7;
+            if !edge && n_edge % 5 != 0 {
+                continue;
+            }
+            if edge {
+                n_edge += 1;
+                if n_edge > if c.thorough { 400 } else { 60 } {
+                    continue;
+                }
+            }
+            c.pos(p);
+            let files = "abcdefgh".as_bytes();
+            let text = format!("{}x{}", files[cf as usize] as char, owlchess::Coord::from_index(dst));
+            let short = format!("{}{}", files[cf as usize] as char, files[dst % 8] as char);
+            for t in [text, short] {
+                let s = chaingen::gen_text_line(&mut c.rng, p, &[format!("ps {}", str_enc(&t))]);
+                c.case("chain", &s.line);
+            }
+        }
+    }
     let singles = posgen::f3i(&mut c.rng, if c.thorough { 40 } else { 10 }, if c.thorough { 2_000_000 } else { 400_000 });
     let mut lines: Vec<(Pos, Move)> = posgen::f3i_predecessors(&singles);
     lines.extend(posgen::ep_predecessors(&singles));
@@ -1322,6 +1490,30 @@ fn c19(c: &mut Ctx) {
             let a = c.rng.pick(&by_count).1;
             let b = c.rng.pick(&by_count).1;
             c.case("geninto2", &format!("geninto2 {} {}", a.raw_text(), b.raw_text()));
+        }
+    }
+    // the generators' output size asked of board objects that a make / unmake has touched (a promoted queen that is
+    // missing from a colour set is transparent: more moves than the position has)
+    {
+        let mut qs = object_positions(c, 40);
+        for p in ps.iter() {
+            if qs.len() < 400 && true_legal_moves(&p.board).iter().any(|m| (m.kind() as u8) >= 6) {
+                qs.push(p.clone());
+            }
+        }
+        for fen in [
+            "7Q/Q1P1PP1Q/1n1Q4/1Q4Q1/4Q3/2Q4Q/Q4Qnq/n2QbKbk w - - 0 1",
+            "1Q5Q/P1Q5/3Q4/1Q4Q1/4Q3/2Q4Q/Q4Q1k/3Q1K2 w - - 0 1",
+        ] {
+            if let Ok(b) = owlchess::Board::from_fen(fen) {
+                qs.push(Pos { sent: *b.raw(), board: b, fam: "objects" });
+            }
+        }
+        for p in &qs {
+            c.pos(p);
+            let raw = p.raw_text();
+            object_cases(c, p, "genvec", &format!("genvec {}", raw), 4, 4);
+            object_cases(c, p, "gen", &format!("gen {} 0 0", raw), 2, 4);
         }
     }
     // square arithmetic behind the special pawn moves: every (en passant | double step, own pawn, destination) tuple in
